@@ -235,14 +235,17 @@ IdCase(cc) ==
 (* part is then not a rational function of the input and of f(r).            *)
 LeadArgs(f) == CASE f = "Log"  -> << <<RI(2), One>>, <<R(1, 2), One>>, <<RI(4), One>> >>
                  [] f = "Sqrt" -> << <<RI(4), RI(2)>>, <<R(9, 4), R(3, 2)>>, <<R(1, 4), R(1, 2)>> >>
-                 [] f = "PowInt" -> << <<RI(2), One>>, <<R(1, 2), One>>, <<RI(4), One>> >>
+                 [] f \in {"PowInt", "PowNum"} -> << <<RI(2), One>>, <<R(1, 2), One>>, <<RI(4), One>> >>
                  [] f = "Exp"  -> << <<Zero, One>> >>
-LeadFuns == {"Log", "Sqrt", "PowInt", "Exp"}
+\* PowNum: Pow(x, n) with the exponent n a real scalar embedded in the type (dualquat.Pow, dualcmplx.Pow)
+LeadFuns == {"Log", "Sqrt", "PowInt", "PowNum", "Exp"}
+IsPowF(f) == f \in {"PowInt", "PowNum"}
 QDual(v, ai) == <<E1s[((v + ai) % 4) + 1], E2s[((v + 2 * ai + Seed) % 4) + 1], E12s[(v % 3) + 1], E1s[((v + 3 * ai + 1) % 4) + 1]>>
 LeadCase(cc) ==
   LET a == LeadArgs(cc.f)[cc.a]  x == a[1]
-      p == IF cc.f = "PowInt" THEN << RI(2), RI(3), RI(-1) >>[cc.e] ELSE Zero
-      t == IF cc.f = "Exp" THEN [has |-> TRUE, F |-> One, D1 |-> One] ELSE Tab(cc.f, x, a[2], p)
+      p == IF IsPowF(cc.f) THEN << RI(2), RI(3), RI(-1) >>[cc.e] ELSE Zero
+      t == IF cc.f = "Exp" THEN [has |-> TRUE, F |-> One, D1 |-> One]
+           ELSE Tab(IF IsPowF(cc.f) THEN "PowInt" ELSE cc.f, x, a[2], p)
       d == IF cc.t = "dquat" THEN QDual(cc.v, cc.a) ELSE SubSeq(QDual(cc.v, cc.a), 1, 2)
       nl == IF cc.t = "dquat" THEN 4 ELSE 2
       lead == Force([i \in 1..nl |-> IF i = 1 THEN x ELSE Zero])
@@ -264,27 +267,129 @@ RelCCase(cc) ==
    terms |-> << TRec(<< <<RDiv(d[1], z[2]), 1, 0>> >>), TRec(<< <<RDiv(d[2], z[2]), 1, 0>> >>) >>,
    tolu |-> 64, note |-> "complex-lead"]
 
+
+(********************* documented special values ***************************)
+(* The "Special cases are" lists of num/dual and num/hyperdual as a table: argument (real part by class,   *)
+(* dual parts fixed: Emag = 2; E1mag = 2, E2mag = 3, E1E2mag = 0), exponent for PowReal, the documented     *)
+(* real part and, where the documentation states it, the first-order dual parts ("N": the incoming dual     *)
+(* part unchanged; "anyinf": an infinity of either sign; "any": not stated).  Tokens: "nan", "inf", "-inf", *)
+(* "0" (+0), "-0", "z" (a zero of either sign), "pi", "pi/2", "-pi/2", or a rational "n/d".  Lines of the   *)
+(* documentation that contradict the function's mathematical value (Asin(+-1) = +-Inf) are left out.        *)
+SRow(f, x, p, e, d) == [f |-> f, x |-> x, p |-> p, e |-> e, d |-> d]
+OddFuns == << "Sin", "Tan", "Asin", "Atan", "Sinh", "Tanh", "Asinh", "Atanh" >>
+SpecRows ==
+  \* f(+-0) = (+-0 + N eps) for the odd functions
+  [i \in 1..Len(OddFuns) |-> SRow(OddFuns[i], "0", "", "0", "N")] \o [i \in 1..Len(OddFuns) |-> SRow(OddFuns[i], "-0", "", "-0", "N")]
+  \o << SRow("Sqrt", "inf", "", "inf", "any"), SRow("Sqrt", "0", "", "0", "inf"), SRow("Sqrt", "-0", "", "-0", "inf"),
+        SRow("Sqrt", "-1/1", "", "nan", "any"), SRow("Sqrt", "nan", "", "nan", "any"),
+        SRow("Exp", "inf", "", "inf", "any"), SRow("Exp", "nan", "", "nan", "any"),
+        SRow("Log", "inf", "", "inf", "z"), SRow("Log", "0", "", "-inf", "anyinf"), SRow("Log", "-2/1", "", "nan", "any"), SRow("Log", "nan", "", "nan", "any"),
+        SRow("Sin", "inf", "", "nan", "any"), SRow("Sin", "-inf", "", "nan", "any"), SRow("Sin", "nan", "", "nan", "any"),
+        SRow("Cos", "inf", "", "nan", "any"), SRow("Cos", "-inf", "", "nan", "any"), SRow("Cos", "nan", "", "nan", "any"),
+        SRow("Tan", "inf", "", "nan", "any"), SRow("Tan", "-inf", "", "nan", "any"), SRow("Tan", "nan", "", "nan", "any"),
+        SRow("Asin", "2/1", "", "nan", "any"), SRow("Asin", "-3/2", "", "nan", "any"),
+        \* Asin(+-1): the documented dual part (the derivative is infinite); the documented real part +-Inf is not asin(+-1)
+        SRow("Asin", "1/1", "", "any", "inf"), SRow("Asin", "-1/1", "", "any", "inf"),
+        \* Inv(+-Inf) = +-0 - 0 eps,  Inv(+-0) = +-Inf - Inf eps
+        SRow("Inv", "inf", "", "0", "z"), SRow("Inv", "-inf", "", "-0", "z"), SRow("Inv", "0", "", "inf", "-inf"), SRow("Inv", "-0", "", "-inf", "-inf"),
+        SRow("Acos", "-1/1", "", "pi", "-inf"), SRow("Acos", "1/1", "", "0", "-inf"), SRow("Acos", "2/1", "", "nan", "any"), SRow("Acos", "-3/2", "", "nan", "any"),
+        SRow("Atan", "inf", "", "pi/2", "z"), SRow("Atan", "-inf", "", "-pi/2", "z"),
+        SRow("Sinh", "inf", "", "inf", "any"), SRow("Sinh", "-inf", "", "-inf", "any"), SRow("Sinh", "nan", "", "nan", "any"),
+        SRow("Cosh", "0", "", "1/1", "any"), SRow("Cosh", "-0", "", "1/1", "any"), SRow("Cosh", "inf", "", "inf", "any"), SRow("Cosh", "-inf", "", "inf", "any"),
+        SRow("Cosh", "nan", "", "nan", "any"),
+        SRow("Tanh", "inf", "", "1/1", "z"), SRow("Tanh", "-inf", "", "-1/1", "z"), SRow("Tanh", "nan", "", "nan", "any"),
+        SRow("Asinh", "inf", "", "inf", "any"), SRow("Asinh", "-inf", "", "-inf", "any"), SRow("Asinh", "nan", "", "nan", "any"),
+        SRow("Acosh", "inf", "", "inf", "any"), SRow("Acosh", "1/1", "", "0", "inf"), SRow("Acosh", "1/2", "", "nan", "any"), SRow("Acosh", "-2/1", "", "nan", "any"),
+        SRow("Acosh", "nan", "", "nan", "any"),
+        SRow("Atanh", "1/1", "", "inf", "any"), SRow("Atanh", "-1/1", "", "-inf", "any"), SRow("Atanh", "2/1", "", "nan", "any"), SRow("Atanh", "-3/2", "", "nan", "any"),
+        SRow("Atanh", "nan", "", "nan", "any"),
+        \* PowReal, "in order"
+        SRow("PowReal", "nan", "0", "1/1", "nan"), SRow("PowReal", "nan", "-0", "1/1", "nan"),
+        SRow("PowReal", "2/1", "0", "1/1", "any"), SRow("PowReal", "0", "-0", "1/1", "any"), SRow("PowReal", "inf", "0", "1/1", "any"), SRow("PowReal", "-3/1", "0", "1/1", "any"),
+        SRow("PowReal", "1/1", "5/2", "1/1", "any"), SRow("PowReal", "1/1", "inf", "1/1", "any"),
+        SRow("PowReal", "-3/1", "1/1", "-3/1", "N"), SRow("PowReal", "1/2", "1/1", "1/2", "N"),
+        SRow("PowReal", "nan", "2/1", "nan", "nan"), SRow("PowReal", "2/1", "nan", "nan", "nan"),
+        SRow("PowReal", "0", "-3/1", "inf", "any"), SRow("PowReal", "-0", "-3/1", "-inf", "any"),
+        SRow("PowReal", "0", "-inf", "inf", "any"), SRow("PowReal", "-0", "-inf", "inf", "any"),
+        SRow("PowReal", "0", "inf", "0", "any"), SRow("PowReal", "-0", "inf", "0", "any"),
+        SRow("PowReal", "0", "-2/1", "inf", "any"), SRow("PowReal", "-0", "-2/1", "inf", "any"), SRow("PowReal", "0", "-1/2", "inf", "any"),
+        SRow("PowReal", "0", "3/1", "0", "any"), SRow("PowReal", "-0", "3/1", "-0", "any"),
+        SRow("PowReal", "0", "2/1", "0", "any"), SRow("PowReal", "-0", "2/1", "0", "any"), SRow("PowReal", "-0", "1/2", "0", "any"),
+        SRow("PowReal", "-1/1", "inf", "1/1", "any"), SRow("PowReal", "-1/1", "-inf", "1/1", "any"),
+        SRow("PowReal", "2/1", "inf", "inf", "any"), SRow("PowReal", "-2/1", "inf", "inf", "any"),
+        SRow("PowReal", "2/1", "-inf", "0", "nan"), SRow("PowReal", "-3/2", "-inf", "0", "nan"),
+        SRow("PowReal", "1/2", "inf", "0", "nan"), SRow("PowReal", "-1/4", "inf", "0", "nan"),
+        SRow("PowReal", "1/2", "-inf", "inf", "any"),
+        SRow("PowReal", "inf", "2/1", "inf", "any"), SRow("PowReal", "inf", "1/2", "inf", "any"), SRow("PowReal", "inf", "-2/1", "0", "any"),
+        \* PowReal(-Inf, y) = Pow(-0, -y)
+        SRow("PowReal", "-inf", "3/1", "-inf", "any"), SRow("PowReal", "-inf", "2/1", "inf", "any"), SRow("PowReal", "-inf", "-3/1", "-0", "any"), SRow("PowReal", "-inf", "-2/1", "0", "any"),
+        SRow("PowReal", "-2/1", "1/2", "nan", "nan"), SRow("PowReal", "-1/2", "-3/2", "nan", "nan") >>
+SpecCase(cc) == LET r == SpecRows[cc.a] IN [kind |-> "dspec", t |-> cc.t, f |-> r.f, x |-> r.x, p |-> r.p, e |-> r.e, d |-> r.d]
+
+(* dualquat.PowReal / dualcmplx.PowReal: the documented special cases that are meaningful for a quaternion  *)
+(* or complex leading part x (classes: |x| > 1, |x| < 1, NaN, Inf, 0, 1; -1 for dualcmplx), and those of   *)
+(* Log, by class of the result parts:                                                                        *)
+(* "one", "zero", "inf" (a component infinite), "nan" (a component NaN, none infinite), "same", "any".      *)
+LRowF(f, x, d, p, er, ed) == [f |-> f, x |-> x, d |-> d, p |-> p, er |-> er, ed |-> ed]
+LRow(x, d, p, er, ed) == LRowF("PowReal", x, d, p, er, ed)
+LeadTok(T, cls) ==
+  CASE cls = "nan"  -> IF T = "dquat" THEN << "nan", "nan", "nan", "nan" >> ELSE << "nan", "nan" >>
+    [] cls = "inf"  -> IF T = "dquat" THEN << "inf", "inf", "inf", "inf" >> ELSE << "inf", "inf" >>
+    [] cls = "zero" -> IF T = "dquat" THEN << "0", "0", "0", "0" >> ELSE << "0", "0" >>
+    [] cls = "one"  -> IF T = "dquat" THEN << "1/1", "0", "0", "0" >> ELSE << "1/1", "0" >>
+    [] cls = "mone" -> IF T = "dquat" THEN << "-1/1", "0", "0", "0" >> ELSE << "-1/1", "0" >>
+    [] cls = "big"  -> IF T = "dquat" THEN << "2/1", "1/1", "0", "-1/1" >> ELSE << "2/1", "-1/1" >>
+    [] cls = "small" -> IF T = "dquat" THEN << "1/4", "1/2", "0", "1/4" >> ELSE << "1/4", "1/2" >>
+    [] cls = "gen"  -> IF T = "dquat" THEN << "1/1", "2/1", "-1/1", "1/2" >> ELSE << "1/1", "2/1" >>
+DualTok(T, cls) ==
+  CASE cls = "zero" -> IF T = "dquat" THEN << "0", "0", "0", "0" >> ELSE << "0", "0" >>
+    [] cls = "gen"  -> IF T = "dquat" THEN << "3/1", "-1/1", "2/1", "1/2" >> ELSE << "3/1", "-1/2" >>
+LeadRows(T) ==
+  << LRow("nan", "gen", "0", "one", "nan"), LRow("nan", "gen", "-0", "one", "nan"),
+     LRow("gen", "gen", "0", "one", "any"), LRow("inf", "gen", "0", "one", "any"),
+     LRow("gen", "gen", "1/1", "same", "same"), LRow("small", "zero", "1/1", "same", "same"),
+     LRow("big", "zero", "inf", "inf", "nan"), LRow("big", "gen", "inf", "inf", "any"),
+     LRow("big", "gen", "-inf", "zero", "nan"), LRow("big", "zero", "-inf", "zero", "nan"),
+     LRow("small", "gen", "inf", "zero", "nan"), LRow("small", "zero", "inf", "zero", "nan"),
+     LRow("small", "zero", "-inf", "inf", "nan"), LRow("small", "gen", "-inf", "inf", "inf"),
+     LRow("nan", "gen", "2/1", "nan", "nan"), LRow("gen", "gen", "nan", "nan", "nan"),
+     \* Log(+Inf) = (+Inf + 0 eps),  Log(0) = (-Inf +- Inf eps)
+     LRowF("Log", "inf", "gen", "0", "inf", "zero"), LRowF("Log", "zero", "gen", "0", "inf", "inf") >>
+  \o (IF T = "dcmplx"
+      THEN << LRow("zero", "gen", "1/2", "zero", "inf"), LRow("zero", "gen", "-1/1", "zero", "inf"), LRow("zero", "gen", "2/1", "zero", "zero"),
+              LRow("inf", "gen", "2/1", "inf", "nan"), LRow("inf", "gen", "-2/1", "zero", "nan"), LRow("zero", "gen", "0", "one", "any"),
+              LRow("inf", "gen", "1/1", "inf", "nan"), LRow("mone", "gen", "inf", "one", "any"), LRow("mone", "gen", "-inf", "one", "any") >>
+      ELSE <<>>)
+LeadSpecCase(cc) == LET r == LeadRows(cc.t)[cc.a] IN
+  [kind |-> "lspec", t |-> cc.t, f |-> r.f, x |-> LeadTok(cc.t, r.x) \o DualTok(cc.t, r.d), p |-> r.p, er |-> r.er, ed |-> r.ed, xc |-> r.x, dc |-> r.d]
+
 AbsFuns == {"Inv", "Log", "Sqrt", "SqrtSq", "PowInt", "PowHalf", "Atan", "Atanh", "Asin", "Acos", "Asinh", "Acosh"}
 IdFuns  == {"ExpLog", "PowNum2", "LogMul"}
 IsZeroArg(cc) == Args(cc.f)[cc.a][1] = Zero
 IsLeadType(T) == T \in {"dquat", "dcmplx"}
-Case(cc) == IF IsLeadType(cc.t) THEN (IF cc.f \in {"ExpZ", "LogZ"} THEN RelCCase([cc EXCEPT !.f = IF cc.f = "ExpZ" THEN "Exp" ELSE "Log"]) ELSE LeadCase(cc))
+Case(cc) == IF cc.f = "Special" THEN (IF IsLeadType(cc.t) THEN LeadSpecCase(cc) ELSE SpecCase(cc))
+            ELSE IF IsLeadType(cc.t) THEN (IF cc.f \in {"ExpZ", "LogZ"} THEN RelCCase([cc EXCEPT !.f = IF cc.f = "ExpZ" THEN "Exp" ELSE "Log"]) ELSE LeadCase(cc))
             ELSE IF cc.f \in AbsFuns THEN AbsCase(cc)
             ELSE IF cc.f \in IdFuns THEN IdCase(cc)
             ELSE IF IsZeroArg(cc) THEN ZeroCase(cc) ELSE RelCase(cc)
 
 Laws(cc) ==
-  IsLeadType(cc.t) \/
+  IsLeadType(cc.t) \/ cc.f = "Special" \/
   /\ ChainLaw(XOf(cc))
   /\ cc.f \in AbsFuns => TabLaw(cc.f, Args(cc.f)[cc.a][1], Args(cc.f)[cc.a][2], Exponents(cc.f)[cc.e])
   /\ cc.f \in RelFuns => SysLaw(cc.f)
   /\ cc.f = "LogMul" => IdCase(cc).note = "value"
 
 (****************************** state space ********************************)
-Init == c \in {cc \in [t : Types, f : Funs \cup (IF "dcmplx" \in Types THEN {"ExpZ", "LogZ"} ELSE {}), a : 1..5, e : 1..6, v : 0..NVar-1] :
+SpecialStates == IF "Special" \in Funs
+                 THEN {[t |-> T, f |-> "Special", a |-> a, e |-> 1, v |-> 0] :
+                         T \in Types, a \in 1..200} ELSE {}
+NSpecial(T) == IF IsLeadType(T) THEN Len(LeadRows(T)) ELSE Len(SpecRows)
+Init == c \in {cc \in SpecialStates : cc.a <= NSpecial(cc.t)} \cup
+              {cc \in [t : Types, f : (Funs \ {"Special"}) \cup (IF "dcmplx" \in Types THEN {"ExpZ", "LogZ"} ELSE {}), a : 1..5, e : 1..6, v : 0..NVar-1] :
                  IF IsLeadType(cc.t)
                  THEN \/ cc.f \in {"ExpZ", "LogZ"} /\ cc.t = "dcmplx" /\ cc.e = 1
-                      \/ cc.f \in LeadFuns /\ cc.a <= Len(LeadArgs(cc.f)) /\ cc.e <= (IF cc.f = "PowInt" THEN 3 ELSE 1)
+                      \/ cc.f \in LeadFuns /\ cc.a <= Len(LeadArgs(cc.f)) /\ cc.e <= (IF IsPowF(cc.f) THEN 3 ELSE 1)
                  ELSE cc.f \notin {"ExpZ", "LogZ"} /\ cc.a <= Len(Args(cc.f)) /\ cc.e <= Len(Exponents(cc.f))}
 Next == UNCHANGED c
 Spec == Init /\ [][Next]_c
